@@ -79,13 +79,16 @@ def gen_history(d, qcap, flags, lines=True, holds=True, long_history=True, line_
     actions = []
     step = 0
     nops = d.rng(4, 60) if long_history else d.rng(2, 14)
+    marathon = long_history and d.unlikely(1, 40)
+    if marathon:
+        nops = d.rng(300, 520)        # several hundred accepted events on one parser object: internal ring counters wrap
     def target():
         # mostly the event commands; now and then a command that lines use too (the one a hold belongs to included)
         if lcs and d.unlikely(1, 6):
             return nev + d.below(len(lcs))
         return d.below(nev)
     for _ in range(nops):
-        step += d.pick([0, 0, 0, 1, 1, 2, 3, 5, 9, 20, 60, 150])
+        step += d.pick([0, 0, 0, 1, 1, 2, 3, 5, 9, 20, 60, 150]) if not marathon else d.pick([0, 0, 1, 3, 9, 20, 30])
         k = d.weighted([(8, "trig"), (2, "full"), (2, "buf"), (1, "proc"), (2, "burst"), (1, "dis")])
         if k == "trig":
             actions.append([S.AT_STEP, step, S.WA_TRIG, target(), d.pick([0, 1, 0, 1, 2, 3]), None])
@@ -165,16 +168,21 @@ def status_by_step(t):
 
 
 def judge_queue(s, t, check_outputs=True, check_ok_idle=False):
-    """replay the QueueModel over the trace; returns a QueueVerdict"""
+    """replay the QueueModel over the trace; returns a QueueVerdict.
+
+    The model is a bounded FIFO of accepted events plus one in-progress slot.  It does not assume HOW MANY events a single
+    cat_service call finishes or starts (no statement fixes that): after every observation it keeps the set of all positions
+    "so many events started, the last one finished or not" that are consistent with everything seen so far - trigger results,
+    full / buffered / processed-command answers, unsolicited handler invocations and the processed command sampled after every
+    call - and reports a violation only when no position is left.  Position p: (p + 1) // 2 events have been started, the last
+    started one is still in progress iff p is odd; the waiting events are the accepted ones behind it, in acceptance order."""
     v = QueueVerdict()
     cs = S.all_cmds(s)
     qcap = s["qcap"]
     uc = S.ucap(s)
     m = ref.Model(s)
-    waiting = []          # accepted, not yet started: (ci, typ)
-    inprog = None         # (ci, typ) being processed according to the model
-    order = []            # started events in order
-    # group records by step
+    acc = []              # accepted events in acceptance order: (ci, typ)
+    P = {0}               # consistent positions
     nsteps = t.q["steps"]
     pre = {}
     insvc = {}
@@ -186,97 +194,114 @@ def judge_queue(s, t, check_outputs=True, check_ok_idle=False):
     samples = {}
     for st, pu, busy, hold in t.samples:
         samples[st] = pu
-    probes = {p[0]: p for p in t.probes}
     cur_pu = -1           # observed processed unsolicited command after the previous step
     stat = status_by_step(t) if check_ok_idle else None
 
-    def do_api(e):
-        nonlocal waiting
+    def inprog(p):
+        return acc[(p + 1) // 2 - 1] if p % 2 else None
+
+    def nwait(p):
+        return len(acc) - (p + 1) // 2
+
+    def closure(ps):
+        return set(range(min(ps), 2 * len(acc) + 1)) if ps else set()
+
+    def describe(ps):
+        p = min(ps)
+        return "waiting %r in progress %r" % (acc[(p + 1) // 2:], inprog(p))
+
+    def do_api(e, ps):
+        """filter the position set by one API observation; returns (new set, message-if-empty)"""
         if e.name == "trig":
             ci, typ = e.args[0], e.args[1]
-            if len(waiting) < qcap:
-                if e.result != S.S_OK:
-                    return "trigger of command %d at step %d returned %d with %d of %d slots used" % (ci, e.step, e.result, len(waiting), qcap)
-                waiting.append((ci, typ))
+            if e.result == S.S_OK:
+                ok = {p for p in ps if nwait(p) < qcap}
+                if not ok:
+                    return ok, "trigger of command %d at step %d was accepted although %d events are waiting (capacity %d)" % (ci, e.step, min(nwait(p) for p in ps), qcap)
+                if any(nwait(p) >= 1 for p in ok) and ends_at_once(cs[ci], typ, uc) is False and any(ends_at_once(cs[a], b, uc) for a, b in acc[(min(ok) + 1) // 2:]):
+                    v.fail_then_queued = True
+                acc.append((ci, typ))
                 v.accepted += 1
-                v.max_waiting = max(v.max_waiting, len(waiting))
-            else:
-                if e.result != S.S_FULL:
-                    return "trigger at step %d returned %d although %d events are waiting (capacity %d)" % (e.step, e.result, len(waiting), qcap)
+                if ends_at_once(cs[ci], typ, uc):
+                    v.immediate += 1
+                v.max_waiting = max(v.max_waiting, min(nwait(p) for p in ok))
+                return ok, None
+            if e.result == S.S_FULL:
+                ok = {p for p in ps if nwait(p) >= qcap}
+                if not ok:
+                    return ok, "trigger at step %d returned BUFFER_FULL with at most %d events waiting (capacity %d)" % (e.step, max(nwait(p) for p in ps), qcap)
                 v.full += 1
-        elif e.name == "isfull":
+                return ok, None
+            return set(), "trigger of command %d at step %d returned %d" % (ci, e.step, e.result)
+        if e.name == "isfull":
             v.queries += 1
-            exp = S.S_FULL if len(waiting) >= qcap else S.S_OK
-            if e.result != exp:
-                return "cat_is_unsolicited_buffer_full at step %d returned %d with %d waiting (capacity %d)" % (e.step, e.result, len(waiting), qcap)
-        elif e.name == "isbuf":
+            ok = {p for p in ps if (S.S_FULL if nwait(p) >= qcap else S.S_OK) == e.result}
+            return ok, None if ok else "cat_is_unsolicited_buffer_full at step %d returned %d with %s (capacity %d)" % (e.step, e.result, describe(ps), qcap)
+        if e.name == "isbuf":
             v.queries += 1
             ci, ty = e.args
             want = [0] if ty == 1 else ([1] if ty == 3 else [0, 1])
-            pend = any(w[0] == ci and w[1] in want for w in waiting) or (inprog is not None and inprog[0] == ci and inprog[1] in want)
-            if e.result != (S.S_BUSY if pend else S.S_OK):
-                return "cat_is_unsolicited_event_buffered(cmd %d, type %d) at step %d returned %d; waiting %r in progress %r" % (ci, ty, e.step, e.result, waiting, inprog)
-        elif e.name == "getproc" and e.args[0] == 1:
+
+            def pend(p):
+                ip = inprog(p)
+                return any(w[0] == ci and w[1] in want for w in acc[(p + 1) // 2:]) or (ip is not None and ip[0] == ci and ip[1] in want)
+            ok = {p for p in ps if (S.S_BUSY if pend(p) else S.S_OK) == e.result}
+            return ok, None if ok else "cat_is_unsolicited_event_buffered(cmd %d, type %d) at step %d returned %d; %s" % (ci, ty, e.step, e.result, describe(ps))
+        if e.name == "getproc" and e.args[0] == 1:
             v.queries += 1
-            exp = inprog[0] if inprog is not None else -1
-            if e.result != exp:
-                return "cat_get_processed_command(UNSOLICITED) at step %d returned %d, model says %d" % (e.step, e.result, exp)
-        return None
+            ok = {p for p in ps if (inprog(p)[0] if inprog(p) is not None else -1) == e.result}
+            return ok, None if ok else "cat_get_processed_command(UNSOLICITED) at step %d returned %d; %s" % (e.step, e.result, describe(ps))
+        return ps, None
 
     for st in range(nsteps):
         for e in pre.get(st, []):
-            r = do_api(e)
-            if r:
-                v.violation = ("queue-api", r)
+            P, msg = do_api(e, P)
+            if not P:
+                v.violation = ("queue-api", msg)
                 return v
-        # the service call of this step
-        started = None
-        if inprog is None and waiting:
-            started = waiting.pop(0)
-            inprog = started
-            order.append(started)
-            v.started += 1
+        # the service call of this step: it may finish and start any number of events, in order
         for e in insvc.get(st, []):
+            P = closure(P)
             if hasattr(e, "fsm"):
-                if inprog is None or e.ci != inprog[0] or e.kind != ("r" if inprog[1] == 0 else "t"):
-                    v.violation = ("event-order", "unsolicited %s handler of command %d ran at step %d but the model has %r in progress (started order %r)" % (e.kind, e.ci, st, inprog, order[-4:]))
+                kind = e.kind
+                ok = {p for p in P if inprog(p) is not None and inprog(p)[0] == e.ci and kind == ("r" if inprog(p)[1] == 0 else "t")}
+                if not ok:
+                    v.violation = ("event-order", "unsolicited %s handler of command %d ran at step %d; the model has %s (accepted so far %r)" % (kind, e.ci, st, describe(P), acc[-6:]))
                     return v
+                P = ok
             else:
-                r = do_api(e)
-                if r:
-                    v.violation = ("queue-api", r)
+                P, msg = do_api(e, P)
+                if not P:
+                    v.violation = ("queue-api", msg)
                     return v
+        P = closure(P)
         if st in samples:
             cur_pu = samples[st]
-        # reconcile the in-progress slot with the observation after the call
-        if inprog is not None:
-            if cur_pu == -1:
-                if started is not None and not ends_at_once(cs[started[0]], started[1], uc):
-                    v.violation = ("event-lost", "event %r was dequeued at step %d and processing ended in the same call, but it should be processed (capacity %d)" % (started, st, uc))
-                    return v
-                if started is not None:
-                    v.immediate += 1
-                    if waiting:
-                        v.fail_then_queued = True
-                inprog = None
-            elif cur_pu != inprog[0]:
-                v.violation = ("event-order", "after step %d the library processes command %d, the model says %r (acceptance order %r)" % (st, cur_pu, inprog, order[-4:]))
-                return v
-        else:
-            if cur_pu != -1:
+        ok = {p for p in P if (inprog(p)[0] if inprog(p) is not None else -1) == cur_pu}
+        if not ok:
+            if cur_pu != -1 and not acc:
                 v.violation = ("phantom-event", "after step %d the library processes command %d but nothing was accepted" % (st, cur_pu))
-                return v
-        v.pending_by_step.append(len(waiting) + (1 if inprog is not None else 0))
-        if len(waiting) + (1 if inprog is not None else 0) >= 2:
-            v.two_pending = True
-        if stat is not None and stat[st] == S.S_OK and (waiting or inprog is not None):
-            v.violation = ("ok-with-pending-event", "cat_service returned OK at step %d although events %r are waiting and %r is in progress" % (st, waiting, inprog))
+            else:
+                v.violation = ("event-order", "after step %d the library processes command %d, which no FIFO order of the accepted events explains: %s (accepted %r)" % (st, cur_pu, describe(P), acc[-6:]))
             return v
-    if waiting or inprog is not None:
-        v.violation = ("not-drained", "run ended (%s) with %r waiting and %r in progress" % (t.reason, waiting, inprog))
+        P = ok
+        if stat is not None and stat[st] == S.S_OK:
+            ok = {p for p in P if p == 2 * len(acc)}
+            if not ok:
+                v.violation = ("ok-with-pending-event", "cat_service returned OK at step %d although at least %d accepted events are not finished (%s)" % (st, min(nwait(p) + (p % 2) for p in P), describe(P)))
+                return v
+            P = ok
+        least = min(nwait(p) + (p % 2) for p in P)      # events certainly still pending (the most advanced consistent position)
+        v.pending_by_step.append(least)
+        if least >= 2:
+            v.two_pending = True
+    v.started = len(acc)
+    if 2 * len(acc) not in P:
+        v.violation = ("not-drained", "run ended (%s) with %s" % (t.reason, describe(P)))
         return v
+    order = list(acc)
     if check_outputs:
-        # each started event produces its handler invocations and units exactly once, in order
+        # each accepted event produces its handler invocations and units exactly once, in acceptance order
         exp_units = []
         exp_h = []
         try:
